@@ -203,3 +203,60 @@ def apply_segmentation(R, conn, policy=None, net=None):
             acts[d] = gen.gen_net_acts(R.fork("net", d), nseg, net)
         conn["tcp"]["acts"] = acts
     return pol
+
+
+def attribute_segments(segs, recs):
+    """segs: [(payload, ts_us, pkt)] of ONE direction in output order; recs: truth app records of that direction in
+    order (dicts with app_lo/app_hi).  -> list (one per segment) of lists of candidate record indices, or raises
+    ValueError(class) when a segment straddles a record boundary or lies beyond the truth."""
+    out = []
+    pos = 0
+    for payload, ts, pkt in segs:
+        a, b = pos, pos + len(payload)
+        cands = []
+        if a == b:
+            for i, r in enumerate(recs):
+                if r["app_lo"] <= a <= r["app_hi"]:
+                    cands.append(i)
+        else:
+            for i, r in enumerate(recs):
+                if r["app_lo"] <= a and b <= r["app_hi"]:
+                    cands.append(i)
+                    break
+            if not cands:
+                raise ValueError("segment-straddles-record-boundary" if recs and b <= recs[-1]["app_hi"]
+                                 else "segment-beyond-truth")
+        out.append(cands)
+        pos = b
+    return out
+
+
+def input_packets_of_record(tconn, r):
+    """distinct captured packets (first copies and duplicates alike count once per distinct byte range) overlapping
+    the wire range of truth record r; -> (count_distinct, set of timestamps incl. duplicates)"""
+    rng = set()
+    tss = set()
+    for f in tconn["frames"]:
+        if f["d"] == r["d"] and f["kept"] and f["lo"] < r["hi"] and f["hi"] > r["lo"]:
+            rng.add((f["lo"], f["hi"]))
+            tss.add(f["ts"])
+    return len(rng), tss
+
+
+def random_cli(R, conns, allow=("p", "m", "c", "a", "g")):
+    """random option combination that keeps every TLS/QUIC connection selected"""
+    cli = {}
+    ports = sorted(set(c["s"]["port"] for c in conns if c["s"]["port"] not in (443, 44330)))
+    extra = list(ports)
+    if "p" in allow and R.chance(40):
+        extra += [R.range(1, 65535) for _ in range(R.range(1, 3))]
+    if extra:
+        cli["p"] = extra
+    if "m" in allow and R.chance(40):
+        k = R.range(0, 3)
+        cli["m"] = ["%d:%d%s" % (R.choice([443, 44330] + ports + [R.range(1, 65535)]), R.range(1, 65535),
+                                 "," if R.chance(30) else "") for _ in range(k)]
+    for o, pct in (("c", 30), ("a", 30), ("g", 20)):
+        if o in allow and R.chance(pct):
+            cli[o] = True
+    return cli
